@@ -250,6 +250,10 @@ def evaluate(case):
         tot = h.total
         if eq_exact(uf, under) and eq_exact(of, over) and not eq_exact(tot + float(uf) + float(of), ref.total_weight()):
             out.append(V("conservation", f"conservation|{sigbase}|{csig}", case, float(ref.total_weight()), tot + uf + of))
+    elif A.near_consecutive(pairs):
+        # gaps below the tolerance of is_consecutive(): 'unknown' or the exact numbers, never wrong ones
+        if not ((np.isnan(uf) or eq_exact(uf, under)) and (np.isnan(of) or eq_exact(of, over))):
+            out.append(V("underoverflow_tinygap", f"underoverflow|{sigbase}|{csig}", case, [float(under), float(over)], [uf, of]))
     else:
         if not (np.isnan(uf) and np.isnan(of)):
             out.append(V("gap_unknown", f"gap_unknown|{sigbase}", case, "nan/nan (non-consecutive bins)", [uf, of]))
